@@ -656,6 +656,66 @@ var verifC10Regress = []struct {
 
 func verifC10Str(s string) *string { return &s }
 
+// recordPath values built from token multisets: each of %path %Y %m %d %H %M %S %f %s present 0, 1 or 2 times
+var verifC10RecTokens = []string{"%path", "%Y", "%m", "%d", "%H", "%M", "%S", "%f", "%s"}
+
+func verifC10RecordPath(counts [9]int) string {
+	var sb strings.Builder
+	sb.WriteString("./rec")
+	for round := 0; round < 2; round++ {
+		for j, t := range verifC10RecTokens {
+			if counts[j] > round {
+				sb.WriteString(r2sep(j) + t)
+			}
+		}
+	}
+	return sb.String()
+}
+
+func r2sep(j int) string { return []string{"/", "-", "_"}[j%3] }
+
+// fixed multisets: full timestamp; one token missing but another doubled (six occurrences, not six tokens); …
+func verifC10RecFixed(k int) (string, bool) {
+	playback := k%2 == 1
+	k /= 2
+	c := [9]int{1, 1, 1, 1, 1, 1, 1, 1, 0}
+	switch {
+	case k == 0:
+	case k <= 6: // date/time token k missing, its neighbour doubled
+		c[k] = 0
+		c[1+k%6] = 2
+	case k == 7: // date twice, no time
+		c = [9]int{1, 2, 2, 2, 0, 0, 0, 1, 0}
+	case k == 8: // time twice, no date
+		c = [9]int{1, 0, 0, 0, 2, 2, 2, 1, 0}
+	case k == 9: // %s instead of the date tokens
+		c = [9]int{1, 0, 0, 0, 0, 0, 0, 1, 1}
+	case k == 10: // %path twice, %f missing
+		c = [9]int{2, 1, 1, 1, 1, 1, 1, 0, 0}
+	default: // no %path, everything else twice
+		c = [9]int{0, 2, 2, 2, 2, 2, 2, 2, 0}
+	}
+	return verifC10RecordPath(c), playback
+}
+
+const verifC10RecCount = 24
+
+func verifC10RecOp(rp string, playback bool, level int) string {
+	top := map[string]any{"playback": playback}
+	switch level {
+	case 0:
+		top["paths"] = map[string]any{"cam": map[string]any{"recordPath": rp}}
+	case 1:
+		top["pathDefaults"] = map[string]any{"recordPath": rp}
+		top["paths"] = map[string]any{"cam": map[string]any{}}
+	default:
+		top["recordPath"] = rp
+		top["paths"] = map[string]any{"cam": map[string]any{}}
+	}
+	b, _ := json.Marshal(top)
+	return verifC10LoadOp(b, nil, nil, nil)
+}
+
 // the packed item syntax of the deprecated webrtcICEServers parameter ("scheme:user:pass:host:port"), which Validate
 // converts into webrtcICEServers2: every empty / non-empty pattern of 1..5 colon-separated segments
 func verifC10ICEPattern(k int) string {
@@ -703,6 +763,11 @@ func verifC10Gen(r *verifutil.Rand, i int, thorough bool) []string {
 		return []string{verifC10LoadOp([]byte(verifC10Hostile[i]), nil, nil, nil)}
 	}
 	i -= len(verifC10Hostile)
+	if i < verifC10RecCount {
+		rp, pb := verifC10RecFixed(i)
+		return []string{verifC10RecOp(rp, pb, (i/2)%3)}
+	}
+	i -= verifC10RecCount
 	if i < 2*verifC10ICECount {
 		return []string{verifC10ICEOp([]string{verifC10ICEPattern(i / 2)}, i%2 == 1)}
 	}
@@ -712,6 +777,16 @@ func verifC10Gen(r *verifutil.Rand, i int, thorough bool) []string {
 	}
 	if r.Chance(1, 12) {
 		return []string{verifC10HRandom(r)}
+	}
+	if r.Chance(1, 20) {
+		var c [9]int
+		for j := range c {
+			c[j] = []int{0, 1, 1, 1, 2}[r.Intn(5)]
+		}
+		if r.Bool() {
+			c[8] = 0
+		}
+		return []string{verifC10RecOp(verifC10RecordPath(c), r.Bool(), r.Intn(3))}
 	}
 	if r.Chance(1, 25) {
 		items := []string{verifC10ICERandom(r)}
